@@ -30,12 +30,19 @@ var Ns = common.NewTestNamespaceFromSeed([]byte("verif ndblab namespace"), 0)
 // means memory-only. On-disk databases run with NoFsync as the consensus layer
 // configures them.
 func Open(backend, dir string) (api.NodeDB, error) {
+	return OpenWith(backend, dir, false)
+}
+
+// OpenWith is Open with the DiscardWriteLogs setting given (true is what the
+// consensus state database of the ABCI layer uses).
+func OpenWith(backend, dir string, discardWriteLogs bool) (api.NodeDB, error) {
 	cfg := &api.Config{
-		DB:           dir,
-		NoFsync:      true,
-		MemoryOnly:   dir == "",
-		Namespace:    Ns,
-		MaxCacheSize: 8 * 1024 * 1024,
+		DB:               dir,
+		NoFsync:          true,
+		MemoryOnly:       dir == "",
+		Namespace:        Ns,
+		MaxCacheSize:     8 * 1024 * 1024,
+		DiscardWriteLogs: discardWriteLogs,
 	}
 	switch backend {
 	case Badger:
